@@ -344,7 +344,7 @@ impl Prop for SrcProp {
         if self.which == Which::C13 {
             // the splice must be tree-equivalent "as in C01": every finding recorded for C01 applies
             // to the text that range formatting returns as well
-            if let Some(id) = env.known.excluded("C01", &c.src, &root) {
+            if let Some(id) = env.known.excluded("C01", &c.src, &root, Some(&c.cfg)) {
                 return Some(id);
             }
             // R14: the node range formatting selects for this request is a math node (it lies inside
@@ -362,7 +362,8 @@ impl Prop for SrcProp {
         if env.known.active(self.id()).is_empty() {
             return None;
         }
-        env.known.excluded(self.id(), &c.src, &root)
+        // C12 formats every case with all units 1..8
+        env.known.excluded(self.id(), &c.src, &root, if self.which == Which::C12 { None } else { Some(&c.cfg) })
     }
 
     fn check(&self, c: &SrcCase, env: &Env, st: &mut Stats) -> Verdict {
